@@ -11,7 +11,7 @@ from .common import Discard, run_alg, well_formed, dataset_tags
 
 ID = "C14"
 ENVS = ["absent", "present", "broken", "absent", "present"]
-RUNS = {"quick": 2400, "thorough": 40000}
+RUNS = {"quick": 16000, "thorough": 160000}
 RULE = ("case = (complete dataset, incomplete dataset, valid scheme incl. preset multiples, 3-6 algorithm configurations "
         "incl. nested ones, RNG schedules) in a cell (cplex environment); distinct = distinct case digest; non-trivial "
         "= at least one predicate answer was confronted with an actual run on an incomplete dataset")
